@@ -281,6 +281,9 @@ func specIsCtl(m hsms.Message) bool {
 //@ ensures [orphanrej] frame[4] == 0 && len(frame) == 10 && frame[5] == 7 ==> result && zzCalls("hsmsss.(*transport).sendRejectTransactionNotOpen") == 0 &&
 //@                    zzCalls("hsmsss.(*transport).sendReject") == 0 && zzCalls("hsms.(TransportRuntime).TCPDown") == 0
 //@ ensures [keep]     zzCalls("hsmsss.(*transport).handleSeparateReq") == 0 ==> result && zzCalls("hsms.(TransportRuntime).TCPDown") == 0
+//@ ensures [commit]   zzCalls("hsms.(TransportRuntime).CommitSelected") >= 1 && zzCalls("hsmsss.(*transport).handleControlReq") == 0 ==>
+//@                    frame[5] == 2 && zzCalls("hsms.(TransportRuntime).RouteReply") == 1 && zzRet[bool]("hsms.(TransportRuntime).RouteReply") &&
+//@                    zzSeq("hsms.(TransportRuntime).RouteReply") < zzSeq("hsms.(TransportRuntime).CommitSelected")
 
 // ---- C19: the linktest loop itself. One arbitrary iteration (between two passes of the loop head) is
 // specified relative to its own start: old(x) is x when the iteration began, zzCalls counts within it.
